@@ -11,8 +11,8 @@ CONSTANTS
   InitSets = {}
   MaxMsgs = 1000
   MaxLen = 1000
-  Dev <- AllDev
-  Store = "dict"
+  AllOpen <- AllKnown
+  Stores = {"dict", "pp", "fs"}
 CONSTRAINT Record
 POSTCONDITION Post
 CHECK_DEADLOCK FALSE
